@@ -663,6 +663,58 @@ def oracle_stack_chunk_size(ck, rng):
                              key={"site": "stack-chunk-size", "symptom": bad[0].split(" ")[0]}, oracle="stack_chunk_size")
 
 
+def oracle_binned_chunkings(ck, rng):
+    """a binned loader is the same loader whatever the chunking of the tomogram it was binned from (regular, irregular, aligned to the bin
+    size or not, one block) and whether the binned image is computed or left lazy: image, sub-volumes and average equal the numpy-backed ones"""
+    import dask.array as da
+    from acryo import SubtomogramLoader, BatchLoader, Molecules
+    dims = (40, 41, 39)
+    tomo = rng.integers(0, 50, size=dims).astype(np.float32)
+    tomo2 = rng.integers(0, 50, size=dims).astype(np.float32)
+    chunkings = [((13, 14, 13), (14, 13, 14), (13, 13, 13)), ((15, 15, 10), (20, 21), (39,)), (dims[0], dims[1], dims[2]), (8, 8, 8), (6, 9, 12),
+                 ((2, 38), (40, 1), (1, 38)), (7, 5, 11)]
+    for b in (2, 3):
+        pos = rng.integers(5, 11, size=(4, 3)).astype(float) * b + (b - 1) / 2
+        mol = Molecules(pos)
+        ref = SubtomogramLoader(tomo, mol, order=1, scale=1.0, output_shape=(3, 3, 3)).binning(b, compute=True)
+        ref_img = np.asarray(ref.image)
+        ref_sub = np.stack([np.asarray(ref.load(i)) for i in range(4)])
+        for ci, ch in enumerate(chunkings):
+            for compute in (False, True):
+                for kind in ("single", "batch"):
+                    if kind == "batch" and (ci + int(compute)) % 2:
+                        continue
+                    ck.oracle_count("binned_chunkings", 1, 1)
+                    bad = None
+                    try:
+                        img = da.from_array(tomo, chunks=ch)
+                        if kind == "single":
+                            lb = SubtomogramLoader(img, mol, order=1, scale=1.0, output_shape=(3, 3, 3)).binning(b, compute=compute)
+                            got_img = np.asarray(lb.image)
+                            got_sub = np.stack([np.asarray(lb.load(i)) for i in range(4)])
+                        else:
+                            bl = BatchLoader(order=1, scale=1.0, output_shape=(3, 3, 3))
+                            bl.add_tomogram(tomo2, mol, image_id=0)
+                            bl.add_tomogram(img, mol, image_id=1)
+                            lb = bl.binning(b, compute=compute)
+                            got_img = np.asarray(lb.images[1])
+                            got_sub = np.stack([np.asarray(lb.load(i)) for i in range(4, 8)])
+                        if got_img.shape != ref_img.shape:
+                            bad = f"binned image has shape {got_img.shape}, the numpy-backed one {ref_img.shape}"
+                        elif not np.array_equal(got_img, ref_img):
+                            bad = f"binned image differs from the numpy-backed one in {int((got_img != ref_img).sum())} voxels"
+                        elif not np.allclose(got_sub, ref_sub, atol=1e-4):
+                            bad = f"sub-volumes of the binned loader differ from the numpy-backed ones by {float(np.abs(got_sub - ref_sub).max()):.3g}"
+                        elif kind == "single" and not np.allclose(np.asarray(lb.average()), ref_sub.mean(axis=0), atol=1e-3):
+                            bad = "average of the binned loader differs from the mean of the numpy-backed sub-volumes"
+                    except Exception as e:  # noqa
+                        bad = f"raised {type(e).__name__}: {e}"
+                    if bad:
+                        ck.violation(what=f"{kind} loader, tomogram {dims} in chunks {ch}, binning({b}, compute={compute}): {bad}",
+                                     inp={"kind": kind, "dims": list(dims), "chunks": [list(c) if isinstance(c, tuple) else c for c in ch], "binsize": b, "compute": compute},
+                                     key={"site": "binned-chunkings", "kind": kind, "binsize": b, "symptom": bad.split(" ")[0]}, oracle="binned_chunkings")
+
+
 def run(ck: common.Check):
     ck.design_ref = "DESIGN.md §6 C10"
     ck.trusted_base = TB
@@ -683,6 +735,7 @@ def run(ck: common.Check):
     oracle_border_chunking(ck, np.random.default_rng(ck.seed + 1001))
     oracle_stack_chunk_size(ck, np.random.default_rng(ck.seed + 1002))
     oracle_task_lists_together(ck, np.random.default_rng(ck.seed + 1003))
+    oracle_binned_chunkings(ck, np.random.default_rng(ck.seed + 1004))
 
 
 def replay_file(data):
